@@ -23,6 +23,19 @@ Theorem C01_tables :
 Proof. exact tables_agree. Qed.
 Print Assumptions C01_tables.
 
+(* 1b. ... including the ORDER OF FIELDS OF EQUAL KIND (struct field order is wire order): the
+       regenerated struct and field names equal the expected Go naming of the manual's fields. *)
+Theorem C01_tables_named :
+  gen_msg_table = expected_msg_table /\ gen_dir_fields = expected_dir_fields /\ gen_qid_fields = expected_qid_fields.
+Proof. exact tables_agree_named. Qed.
+Print Assumptions C01_tables_named.
+
+Theorem C01_expected_is_manual :
+  map (fun r => (fst r, map snd (snd (snd r)))) expected_msg_table = spec_kinds_table /\
+  map snd expected_dir_fields = spec_dir_kinds /\ map snd expected_qid_fields = spec_qid_kinds.
+Proof. exact expected_kinds_are_the_manuals. Qed.
+Print Assumptions C01_expected_is_manual.
+
 (* 2. For every wire-representable message (wf_fcall: integers within their width, strings <= 65535
       bytes, lists <= 65535 elements, stat record <= 65535 bytes, whole-second 32-bit timestamps, fields
       of the kinds its type byte prescribes) the encoder produces exactly the manual's byte layout. *)
